@@ -167,6 +167,10 @@ BaseTheorems ==
   /\ ReduceLaw(G, CS.n, CS.L)
   /\ InverseLaw(G, CS.n, CS.L)
   /\ \A r \in CS.rels : Val(G, CS.n, r) = IdM(CS.n)
+  \* the two directions of the vectorised (automaton-driven) evaluation: prepend a letter / append a letter
+  /\ \A wd \in WordsUpTo(DOMAIN G, CS.L) : Len(wd) >= 1 =>
+        /\ Val(G, CS.n, wd) = MMul(G[Head(wd)], Val(G, CS.n, Tail(wd)))
+        /\ Val(G, CS.n, wd) = MMul(Val(G, CS.n, SubSeq(wd, 1, Len(wd) - 1)), G[wd[Len(wd)]])
   /\ CS.hyp => \A l \in DOMAIN G : Gram(G[l], Mink(CS.n)) = Mink(CS.n)
 
 FoxTheorems ==
@@ -230,6 +234,7 @@ Theorems ==
 (* Tables of specified values                                              *)
 (***************************************************************************)
 BaseWords == WordsUpTo(DOMAIN G, CS.L) \cup CS.xw
+AutoLen == IF CS.L < 3 THEN CS.L ELSE 3
 DWords == WordsUpTo(DOMAIN G, CS.LD) \cup CS.xd
 FoxWords == WordsUpTo(DOMAIN G, CS.LF) \ {<<>>}
 SubL == IF CS.n <= 3 THEN 3 ELSE 2
@@ -239,6 +244,8 @@ Obs ==
          [id |-> CS.id, part |-> "base", n |-> CS.n, gens |-> G,
           vals |-> {<<wd, Val(G, CS.n, wd)>> : wd \in BaseWords},
           reduce |-> {<<wd, Reduce(wd), FormalInverse(wd)>> : wd \in WordsUpTo(DOMAIN G, CS.L)},
+          \* the words returned by freely_reduced_elements(AutoLen): the vectorised evaluation must pair each with vals
+          autolen |-> AutoLen, reduced |-> {wd \in WordsUpTo(DOMAIN G, AutoLen) : IsReduced(wd)},
           rels |-> CS.rels]
     [] part.p = "fox" ->
          [id |-> CS.id, part |-> "fox", n |-> CS.n, gens |-> G, lower |-> DOMAIN CS.lo,
